@@ -38,7 +38,7 @@ pub fn cases(ctx: &Ctx) -> Vec<WCase> {
 
 pub fn run_case(c: &WCase) -> Outcome {
     let o = Oracles { c02: true, c02_saved: true, ..Default::default() };
-    run_world_case(c, o, "C02", &|w, out| {
+    run_world_case(c, o, "C02", &[], &|w, out| {
         out.count("saved_frame_invariant_checks", w.obs.saved_invariant_checks);
         out.count("cells_inspected", w.obs.cells_inspected);
         if w.scn.sparse && w.scn.mp > 0 {
